@@ -430,6 +430,8 @@ package grpctunnel
 //@     assert[C14]     @ownentry   arg1 == st.streamID && arg0 == st.svr
 //@   at call halfClose#1
 //@     assert[C07] @cause arg1 == err
+//@   at call Lock#1
+//@     assert[C03,C04,C05,C06,C07] @cancelbeforelock cancelCalled(st.cancel)
 //@   at go#1
 //@     assert[C13] @notclosed !st.closed
 //@     assert[C02] @status    stat == statusOf(err)
@@ -627,8 +629,10 @@ package grpctunnel
 //@ func (*tunnelServerStream).serveStream
 //@   at call Handler#1
 //@     assert[C08,C17] @unaryctx arg1 == st.ctx
+//@     assert[C04,C07] @watched  count("go:(*tunnelServerStream).serveStream$2") == 1
 //@   at call Handler#2
 //@     assert[C08,C17] @stream id(arg1) == st
+//@     assert[C04,C07] @watched  count("go:(*tunnelServerStream).serveStream$2") == 1
 //@   at call finishStream#1
 //@     assert[C13,C14] @finish arg0 == st
 //@   at go#1
@@ -636,7 +640,7 @@ package grpctunnel
 //@   locks st.writeMu, st.svr.mu, st.readMu
 //@   ensures[C08]         @onehandler count("handler") <= 1
 //@   ensures[C13,C14]     @finishes   count("call:finishStream") == 1
-//@   ensures[C14]         @onewatcher count("go") == 1
+//@   ensures[C04,C14]     @onewatcher count("go") == 1
 //@   assigns *
 
 // Watcher: when the stream context ends, wake a handler blocked in Recv.
@@ -1020,7 +1024,7 @@ package grpctunnel
 //@     assert[C16] @lookahead e1 == nil && !st.isServerStream
 //@   ensures[C01,C16] @first     err == nil ==> e1 == nil && sameSlice(data, d1)
 //@   ensures[C02,C16] @single    err == nil && !st.isServerStream ==> count("call:readMsgLocked") == 2 && e2 == io.EOF && ok2
-//@   ensures[C02]     @laterstatus !st.isServerStream && e1 == nil && e2 != nil && e2 != io.EOF ==> err == e2 && ok == ok2 && data == nil
+//@   ensures[C02,C04] @laterstatus !st.isServerStream && e1 == nil && e2 != nil && e2 != io.EOF ==> err == e2 && ok == ok2 && data == nil
 //@   ensures[C16]     @second    !st.isServerStream && e1 == nil && e2 == nil ==> isStatus(err, codes.Internal) && !ok && data == nil && st.readErr == err
 //@   ensures[C16]     @streaming st.isServerStream ==> count("call:readMsgLocked") == 1
 //@   ensures[C01]     @errnodata err != nil ==> data == nil
@@ -1533,7 +1537,7 @@ package grpctunnel
 //@   locks s.mu
 //@   assigns nothing
 //@   at call Wait#1
-//@     assert[C10,C15] @unlocked !held(s.mu)
+//@     assert[C03,C10,C15] @unlocked !held(s.mu)
 //@   ensures[C10] @forward  old(s.state) == 0 ==> s.state == 1
 //@   ensures[C10] @idempotent old(s.state) != 0 ==> s.state == old(s.state)
 //@   ensures[C10] @waits    count("wg.Wait") == 1
@@ -1548,7 +1552,7 @@ package grpctunnel
 //@     assert[C04,C10] @hangup held(s.mu) && s.state == 2
 //@   loop 1 invariant[C10]     @closing held(s.mu) && s.state == 2 && old(s.state) != 2 && s.instances == old(s.instances)
 //@   at call Wait#1
-//@     assert[C10,C15] @unlocked !held(s.mu)
+//@     assert[C03,C10,C15] @unlocked !held(s.mu)
 //@   ensures[C10] @closed  s.state == 2
 //@   ensures[C10] @waits   count("wg.Wait") == 1
 //@   ensures[C10] @again   old(s.state) == 2 ==> count("carrierSend") == 0
